@@ -156,6 +156,8 @@ def run_case(desc, ctx):
         if np.any(np.abs(cum - f) < 1e-6):
             f = min(1.0, f + 3e-6)
         nm = float(f)
+        if np.any(np.abs(cum[:-1] - f) < 1e-9):
+            ctx.refused("generator: fraction within 1e-9 of a cumulative explained-variance value (round-off would decide)")
         kk = int(np.searchsorted(cum, f - 1e-12) + 1)
         kk = min(kk, rank)
     if desc["dask"] and isinstance(nm, float):
